@@ -283,7 +283,7 @@ func (in *instr) instrumentBody(body *ast.BlockStmt) {
 	writes := map[ast.Stmt]*writePlan{}
 	rangeReads := map[*ast.RangeStmt][]ast.Stmt{}
 	storeIndex := map[*ast.SelectorExpr]bool{} // x.f in store position x.f[k] = v: a header read only
-	indexLhs := map[*ast.IndexExpr]bool{}     // s[i] in store position
+	indexLhs := map[*ast.IndexExpr]bool{}      // s[i] in store position
 
 	planStore := func(stmt ast.Stmt, target ast.Expr) {
 		t := unparen(target)
